@@ -175,8 +175,16 @@ pub fn judge_step(
                     // accepted although no hexadecimal value equal to the XOR follows the first '*'
                     // (no '*' at all, no hex digits, or a different / too large value): also C02
                     let wide = !crate::spec::line::checksum_relation_holds(line);
+                    // accepted although a count / number / id / fill is out of range: whatever value
+                    // the sentence then reports for it was not transmitted (C07)
+                    let range = crate::spec::line::only_numeric_range_violated(line);
                     f.push((
-                        if wide { vec!["C08", "C02"] } else { vec!["C08"] },
+                        match (wide, range) {
+                            (true, true) => vec!["C08", "C02", "C07"],
+                            (true, false) => vec!["C08", "C02"],
+                            (false, true) => vec!["C08", "C07"],
+                            (false, false) => vec!["C08"],
+                        },
                         "asm.accepts-malformed".into(),
                         format!("a line without the sentence shape was accepted: {}", out.show()),
                     ))
